@@ -133,6 +133,7 @@ struct World {
   std::atomic<int> fired[7], fireCnt[7];
   std::atomic<bool> armed[7];
   tp_t t_start; long long dueUs[7] = {};
+  std::atomic<bool> timingBad{false};       // a timed harness action happened too late for the scenario to mean what it says
   World() { for (auto& f : fired) f.store(0); for (auto& f : fireCnt) f.store(0); for (auto& a : armed) a.store(false); }
   int n() const { return (int)scn->due.size(); }
   long long rel_us(const tp_t& t) const {
@@ -217,7 +218,11 @@ static bool run_attempt(const Scenario& sc, long x, int attempt, unsigned seed, 
   std::thread bth;
   const int S = sc.stop;
   if (S != 0 && sc.stopAt == 0 && sc.bmode == "before") w->stop(S);
-  if (S != 0 && sc.stopAt == 0 && sc.bmode == "with") bth = std::thread([wp, S] { wp->stop(S); });
+  if (S != 0 && sc.stopAt == 0 && sc.bmode == "with")
+    bth = std::thread([wp, S, anyFuture, lead] {
+      wp->stop(S);
+      if (anyFuture && wp->now_us() + 5000 > lead) wp->timingBad.store(true);   // meant to race the starts, not the due times
+    });
   for (int i = 1; i <= w->n(); ++i) if (sc.arm[i - 1] == 0) w->arm(i, 0);
   // fence: a plain schedule() behind the remote starts; when it has run every start is inserted
   bool valid = true;
@@ -229,7 +234,10 @@ static bool run_attempt(const Scenario& sc, long x, int attempt, unsigned seed, 
     if (!rtx::wait_for([&] { return flag.load(); }, 20000000)) vrt::die("Hang", 76);
     if (anyFuture && w->now_us() + 5000 > lead) valid = false;
   }
-  if (S != 0 && sc.stopAt == 0 && sc.bmode == "after") w->stop(S);
+  if (S != 0 && sc.stopAt == 0 && sc.bmode == "after") {
+    w->stop(S);
+    if (anyFuture && w->now_us() + 5000 > lead) valid = false;      // meant to happen before the first future due time
+  }
   if (S != 0 && sc.stopAt >= 1) {
     long long target = lead + (long long)(sc.stopAt - 1) * UNIT_US;
     bool racing = sc.stopAt == sc.due[S - 1];
@@ -240,6 +248,7 @@ static bool run_attempt(const Scenario& sc, long x, int attempt, unsigned seed, 
         rtx::b_ready.store(true);
         if (rtx::race.load() != 0) rtx::wait_for([] { return rtx::io_at_fa.load(); }, 100000);
       }
+      if (!racing && wp->now_us() > target + UNIT_US / 2) wp->timingBad.store(true);   // the stopper overslept its tick
       wp->stop(S);
       rtx::b_past_fa.store(true);
     });
@@ -264,8 +273,9 @@ static bool run_attempt(const Scenario& sc, long x, int attempt, unsigned seed, 
   }
   int pending = 0;
   for (int i = 1; i <= w->n(); ++i) if (w->fired[i].load() != 1) ++pending;
+  if (w->timingBad.load()) valid = false;
   if (valid) vrt::ev("{\"e\":\"End\",\"pending\":%d}", pending);
-  else { vrt::ev("{\"e\":\"Discard\",\"why\":\"fence completed %lld us after t_start, lead %lld\"}", 0LL, lead); ++discards; }
+  else { vrt::ev("{\"e\":\"Discard\",\"why\":\"a timed harness action (fence / stop) came too late, lead %lld\"}", lead); ++discards; }
   vrt::log_flush();
   w->runStop.request_stop();
   io.join();
